@@ -21,6 +21,36 @@ def run(ctx, prog, f, config_tag=None):
     return A.run_api(ctx, prog, f, combos="min" if f in MIN_COMBOS else "all", tag=config_tag)
 
 
+_poll_cache = {}
+SRC = ("g", "poll_sources")
+
+
+def run_poll(ctx, prog):
+    """reproc_poll on one source whose process is the handle, from every shape"""
+    from . import summaries as S
+    key = id(prog)
+    if key in _poll_cache:
+        return _poll_cache[key]
+    F = prog.fn("reproc_poll")
+    I = new_interp(prog, overrides=S.POLL_HELPERS)
+    p = {x["name"]: ("v", F.gdid(x["did"])) for x in F.params}
+    entries = []
+    for label, st in A.shape_states(prog, combos="min"):
+        st = st.copy()
+        if st.mem.get(A.fcell("status"), 0) is None:
+            st.mem[A.fcell("status")] = I.nonneg()
+        st.mem[p["sources"]] = fs(("addr", ("i", SRC, 0)))
+        st.mem[("f", ("i", SRC, 0), "process")] = fs(A.OBJ_TOK)
+        st.mem[p["num_sources"]] = fs(1)
+        st.mon["shape"] = label
+        st.mon["nofail"] = True
+        entries.append(st)
+    res = I.run(F, entries)
+    ctx.stats("E-ABS", I.stats)
+    _poll_cache[key] = (res, F, I)
+    return _poll_cache[key]
+
+
 def shape_of(label):
     return label.split("[")[0]
 
@@ -89,10 +119,10 @@ MAY_EXIT = ("reproc_wait", "reproc_stop")
 
 
 def c14_closure(ctx, prog):
-    for f in API:
+    for f in API + ("reproc_poll",):
         if f == "reproc_destroy":
             continue
-        res, F, I = run(ctx, prog, f)
+        res, F, I = run_poll(ctx, prog) if f == "reproc_poll" else run(ctx, prog, f)
         seen = set()
         for st, rv in res.exits:
             lab = st.mon.get("shape")
@@ -227,11 +257,12 @@ def c06_targets(ctx, prog):
             if key in seen:
                 continue
             seen.add(key)
-            ok = pidv == fs(A.PID) and st.res.get(A.PID) in (("running",), ("gone",)) and sigv == fs(SIG.get(fn.name, -999)) \
+            sigc = const_of(prog, node["c"][2])
+            ok = pidv == fs(A.PID) and st.res.get(A.PID) in (("running",), ("gone",)) and sigc == SIG.get(fn.name, -999) \
                 and shape_of(st.mon.get("shape")) == "RUN"
             ctx.ob("C06.K1", "%s via %s" % (site_of(fn, node), f), "a signal is sent only to the positive pid of the handle's own "
                    "child, only while it is running and unreaped, and it is SIGTERM in terminate / SIGKILL in kill", ok,
-                   {"pid": show(pidv), "signal": show(sigv), "child": st.res.get(A.PID), "shape": st.mon.get("shape")}, nontrivial=True)
+                   {"pid": show(pidv), "signal": sigc, "child": st.res.get(A.PID), "shape": st.mon.get("shape")}, nontrivial=True)
             nk += 1
         for e in ev_of(res, ("waitpid",)):
             kind, fn, node, info, st, stack = e
@@ -269,8 +300,8 @@ def c06_targets(ctx, prog):
 # --------------------------------------------------------------------------------- C05 (API part)
 
 def c05_api(ctx, prog):
-    for f in API:
-        res, F, I = run(ctx, prog, f)
+    for f in API + ("reproc_poll",):
+        res, F, I = run_poll(ctx, prog) if f == "reproc_poll" else run(ctx, prog, f)
         bad = ev_of(res, ("double-close", "close-foreign", "close-raw", "double-free", "free-nonheap", "close-ambiguous"))
         ctx.ob("C05.O2", f, "never closes a descriptor twice, never closes one it does not own, never frees twice",
                not bad, {"events": sorted({(e[0], site_of(e[1], e[2]), show(e[3])) for e in bad})[:5]}, nontrivial=True)
